@@ -36,7 +36,7 @@ Lemma fct_tries :
 Proof.
   induction fuel as [|f IH]; intros tries sg reqs cur tp tf no n tg; simpl.
   - split; lia.
-  - destruct (ltb N (sub N tf tp) (norm_t_tol N o)) eqn:Hw.
+  - destruct (leb N tf (add N tp (norm_t_tol N o))) eqn:Hw.
     + repeat split; lia.
     + set (g := clamp_guess N o tp (secant N lg tp tf no n tg)).
       destruct (ltb N (absv N (sub N tg (nrm2 sg (stp sg cur g)))) (mul N (norm_tol N o) tg)) eqn:Hn.
@@ -68,7 +68,7 @@ Definition binv (cur tp tf no n : TT) : Prop :=
 Definition found_ok (g s : TT) : Prop :=
   (s = g /\ ltb N (absv N (sub N tg (nrm2 sg g))) (mul N (norm_tol N o) tg) = true)
   \/ (exists tp tf no n,
-        ltb N (sub N tf tp) (norm_t_tol N o) = true /\ g = tf /\ (s = tp \/ s = tf) /\
+        leb N tf (add N tp (norm_t_tol N o)) = true /\ g = tf /\ (s = tp \/ s = tf) /\
         leb N tg no = true /\ leb N n tg = true /\
         held tp no tp0 no0 /\ held tf n tf0 n0).
 
@@ -81,7 +81,7 @@ Proof.
   induction fuel as [|f IH]; intros tries reqs cur tp tf no n HI g s tr rq; simpl.
   - discriminate.
   - destruct HI as (H1 & H2 & H3 & H4 & H5).
-    destruct (ltb N (sub N tf tp) (norm_t_tol N o)) eqn:Hw.
+    destruct (leb N tf (add N tp (norm_t_tol N o))) eqn:Hw.
     + intros E; inversion E; subst. right. exists tp, g, no, n. repeat split; auto.
     + set (gg := clamp_guess N o tp (secant N lg tp tf no n tg)).
       rewrite (Hstp sg cur gg).
@@ -93,42 +93,15 @@ Proof.
 Qed.
 End Bracket.
 
-(* --- find_collapse: success iff the loop broke before the last allowed try *)
+(* --- find_collapse: success iff the loop broke, which it can only do within
+   norm_steps tries *)
 Lemma find_collapse_some :
   forall sg cur tp tf no n tg g s,
     fst (find_collapse N o nrm2 lg stp sg cur tp tf no n tg) = Some (g, s) <->
     exists tr rq, fct (norm_steps N o) 0 sg [] cur tp tf no n tg = Broke N g s tr rq
-                  /\ tr < norm_steps N o.
+                  /\ 1 <= tr <= norm_steps N o.
 Proof.
   intros. unfold find_collapse.
-  destruct (fct (norm_steps N o) 0 sg [] cur tp tf no n tg) as [g' s' tr rq|tr rq]; simpl.
-  - destruct (Nat.leb (norm_steps N o) tr) eqn:E.
-    + apply Nat.leb_le in E. split; [discriminate|].
-      intros (tr' & rq' & H & Hlt). inversion H; subst. lia.
-    + apply Nat.leb_gt in E. split.
-      * intros H; inversion H; subst. eauto.
-      * intros (tr' & rq' & H & Hlt). inversion H; subst. reflexivity.
-  - split; [discriminate|]. intros (tr' & rq' & H & _). discriminate.
-Qed.
-
-(* the defect: a search that succeeds on its last allowed try is reported
-   as a failure *)
-Lemma find_collapse_last_try_raises :
-  forall sg cur tp tf no n tg g s rq,
-    fct (norm_steps N o) 0 sg [] cur tp tf no n tg = Broke N g s (norm_steps N o) rq ->
-    fst (find_collapse N o nrm2 lg stp sg cur tp tf no n tg) = None.
-Proof.
-  intros. unfold find_collapse. rewrite H. simpl. rewrite Nat.leb_refl. reflexivity.
-Qed.
-
-(* the repaired version succeeds exactly when the loop broke *)
-Lemma find_collapse_fixed_some :
-  forall sg cur tp tf no n tg g s,
-    fst (find_collapse_fixed N o nrm2 lg stp sg cur tp tf no n tg) = Some (g, s) <->
-    exists tr rq, fct (norm_steps N o) 0 sg [] cur tp tf no n tg = Broke N g s tr rq
-                  /\ tr <= norm_steps N o.
-Proof.
-  intros. unfold find_collapse_fixed.
   pose proof (fct_tries (norm_steps N o) 0 sg [] cur tp tf no n tg) as Ht.
   destruct (fct (norm_steps N o) 0 sg [] cur tp tf no n tg) as [g' s' tr rq|tr rq]; simpl.
   - split.
@@ -137,16 +110,17 @@ Proof.
   - split; [discriminate|]. intros (tr' & rq' & H & _). discriminate.
 Qed.
 
-(* the two versions agree whenever the current one returns something *)
-Lemma find_collapse_fixed_extends :
-  forall sg cur tp tf no n tg r,
-    fst (find_collapse N o nrm2 lg stp sg cur tp tf no n tg) = Some r ->
-    fst (find_collapse_fixed N o nrm2 lg stp sg cur tp tf no n tg) = Some r.
+(* the error is raised exactly when norm_steps tries went by without success *)
+Lemma find_collapse_none :
+  forall sg cur tp tf no n tg,
+    fst (find_collapse N o nrm2 lg stp sg cur tp tf no n tg) = None <->
+    exists rq, fct (norm_steps N o) 0 sg [] cur tp tf no n tg = LoopEnd N (norm_steps N o) rq.
 Proof.
-  intros sg cur tp tf no n tg r. unfold find_collapse, find_collapse_fixed.
+  intros. unfold find_collapse.
+  pose proof (fct_tries (norm_steps N o) 0 sg [] cur tp tf no n tg) as Ht.
   destruct (fct (norm_steps N o) 0 sg [] cur tp tf no n tg) as [g' s' tr rq|tr rq]; simpl.
-  - destruct (Nat.leb (norm_steps N o) tr); [discriminate|auto].
-  - discriminate.
+  - split; [discriminate|]. intros (rq' & H). discriminate.
+  - split; [|reflexivity]. intros _. destruct Ht as (E & _). exists rq. f_equal. exact E.
 Qed.
 
 (* --- _do_collapse *)
